@@ -310,16 +310,15 @@ def make_close_case(fn_name, fa, ua, fd, ud, atol_how, rtol_how):
             doc = margins(A, Dd, rel_d, atol * rel_d, rtol)
             impl = margins(A, Dd, rel_d, atol, rtol)
             check_verdicts(ctx, "verdict == SI oracle, bare atol read in desired's unit", fn_name, vs, doc)
-            check_verdicts(ctx, "verdict == SI oracle, bare atol read in actual's unit (as implemented)", fn_name, vs, impl)
+            if npf:
+                # the numpy handlers still read it in a's unit (known finding K3); allclose_units was repaired (14b8216)
+                check_verdicts(ctx, "verdict == SI oracle, bare atol read in actual's unit (as implemented)", fn_name, vs, impl)
         else:
             mb = margins(A, Dd, rel_d, atol * ratio(atol_scale, sa), rtol)
             lab = "verdict == SI oracle, atol in its own unit"
             if rtol_how not in ("default", "bare"):
                 lab += ", rtol a dimensionless quantity"
             check_verdicts(ctx, lab, fn_name, vs, mb)
-            if rtol_how == "xn":
-                raw = margins(A, Dd, rel_d, atol * ratio(atol_scale, sa), rtol_raw)
-                check_verdicts(ctx, "verdict == SI oracle, rtol's number taken without its unit (as implemented)", fn_name, vs, raw)
     if rtol_how not in ("default", "bare") and atol_how in ("default", "bare"):
         raise ValueError("rtol-quantity cases use a unit-carrying atol (labels)")
     return Case(f"C19/{fn_name}/{fa}:{ua}~{fd}:{ud}/atol={atol_how}/rtol={rtol_how}", h,
